@@ -436,7 +436,7 @@ func runC08(c *Ctx) {
 
 	// R4: EOF only through empty then closed
 	o = c.Obl("R4", fname(r.Read), "end-of-file is reported only when the buffer is empty and closed (emptiness tested first): remaining packets stay readable after Close", 1)
-	eofs := findInstrs(r.Read, func(in ssa.Instruction) bool { return returnsGlobalErr(in, "io", "EOF") })
+	eofs := findU(r.Read, func(in ssa.Instruction) bool { return returnsGlobalErr(in, "io", "EOF") })
 	for _, e := range eofs {
 		o.Site(e.Pos(), "return io.EOF")
 		if !hasFact(e, func(f fact) bool { return emptyFact(f, true) }) {
